@@ -46,6 +46,15 @@
  *     precondition of the cache and are not Teletext page numbers).
  *   - A cache that holds only non-displayable pages is not explored: the walk
  *     would spin without a single progress call and only the watchdog could tell.
+ *   - Quick tier bounds are subsets of the DESIGN bounds (see the "bound" meta
+ *     line); the thorough tier runs the full 3^7 product with every switch point.
+ *
+ * Violation keys name the symptom and the input class (never the concrete
+ * population): "<direction>: call never ends [<where the start lies>]",
+ * "<direction>: ... never visits <which page>", "... returned twice ...",
+ * "... visited page with an occurrence is not reported [<pattern>]", ...  The page
+ * statistics of the cache (subno_min) are read only to *name* the class of a
+ * failure the model has already established, never to decide a verdict.
  */
 #include <stdio.h>
 #include <stdlib.h>
@@ -415,13 +424,13 @@ static void report_missing(struct run *r, int y, const char *got)
         int pg = y >> 16, sub = y & 0xFFFF, yt = r->var[r->sl[idx_of(r, y)]];
         int lower = 0;          /* is a subpage of y's page cached at or below the start subno? */
         for (int i = 0; i < r->np; i++) if ((r->key[i] >> 16) == (r->O >> 16) && r->key[i] <= r->O) lower = 1;
-        snprintf(what, sizeof what, "%s pass: expected %x.%x, got %s", dname(r->dir), pg, sub, got);
+        snprintf(what, sizeof what, "%s pass: expected %x.%x ('%s'), got %s", dname(r->dir), pg, sub, text_name(yt), got);
         if (was_visited(r, y)) {
                 /* the walk offered the page, the matcher said no */
                 if (yt == T_PREFIX || yt == T_PREFIX2)
                         snprintf(key, sizeof key, "%s: occurrence that begins inside a failed partial match (ZZAP, ZAZAP) is not reported", dname(r->dir));
                 else
-                        snprintf(key, sizeof key, "%s: visited page with an occurrence is not reported [%s, text '%s']", dname(r->dir), r->pt->name, text_name(yt));
+                        snprintf(key, sizeof key, "%s: visited page with an occurrence is not reported [%s]", dname(r->dir), r->pt->name);
         } else if (page_has_hidden(r, pg))
                 snprintf(key, sizeof key, "%s: page with a cached subpage below its statistics' subno_min is not fully visited", dname(r->dir));
         else if (r->dir < 0 && !r->origin_switch && r->P_any == pg)
@@ -843,7 +852,7 @@ int main(int argc, char **argv)
         int T = mc_tier == MC_THOROUGH;
         unsigned m6 = 0x7F & ~S(4);             /* without 1AB.0 */
         unsigned m4 = S(0) | S(1) | S(3) | S(6);
-        int bfs_ops = T ? 6 : 4;
+        int bfs_ops = T ? 5 : 4;
         if (T) { B.nslot = 4; B.slot[0] = 1; B.slot[1] = 2; B.slot[2] = 3; B.slot[3] = 6; B.npg = 4; B.nsub = 4; B.nupd = 4; }
         else   { B.nslot = 3; B.slot[0] = 1; B.slot[1] = 3; B.slot[2] = 6; B.npg = 4; B.nsub = 2; B.nupd = 2; }
         B.ncfg = B.nslot + 2;
@@ -864,7 +873,7 @@ int main(int argc, char **argv)
                 "%d patterns (literal/regex/casefold/28 escaped characters) x %d text rotations; one cache update after 0..2 calls on %s; "
                 "BFS: %d slots x 4 texts x %d starts, all sequences of %d operations {next(+1), next(-1), %d updates (at most one)}",
                 T ? "the 7 slots" : "the 6 slots without 1AB.0", T ? "all populations" : "{100.0,100.1,150.0,8FE.0}", NTEXT_ZAP - 1, npats, NPT,
-                T ? "the 6 slots without 1AB.0" : "{100.1,150.0,899.0,8FE.0}", B.nslot, B.npg * B.nsub, bfs_ops, B.nupd);
+                T ? "{100.1,100.2,150.0,899.0,8FE.0}" : "{100.1,150.0,899.0,8FE.0}", B.nslot, B.npg * B.nsub, bfs_ops, B.nupd);
 
         /* small populations first: the recorded witness of each violation key is then a small one */
         struct phase_arg p1 = { 0x7F, 0, 1, 1, 0, ALL_PG, 3 }, s1 = { 0x7F, 0, 1, 0, 1, ALL_PG, 3 };
@@ -885,10 +894,10 @@ int main(int argc, char **argv)
         mc_pool("text variants, among other pages", (uint64_t) 2 * NSLOT * (NTEXT_ZAP - 1), text_case, &txt, 120);
         struct phase_arg pt = { 0x7F, 0, 7, 1, 0, T ? ALL_PG : S(0) | S(4), T ? 3 : 1 };
         mc_pool("patterns", (uint64_t) npats * NPT, pattern_case, &pt, 120);
-        struct phase_arg up = { T ? m6 : (S(1) | S(3) | S(5) | S(6)), 0, 7, 0, 0, T ? ALL_PG : S(0) | S(2) | S(4) | S(7), T ? 3 : 1 };
+        struct phase_arg up = { T ? (m6 & ~S(0)) : (S(1) | S(3) | S(5) | S(6)), 0, 7, 0, 0, T ? ALL_PG : S(0) | S(2) | S(4) | S(7), T ? 3 : 1 };
         mc_pool("one cache update", npop(up.mask), update_case, &up, 120);
 
-        mc_bfs_spec spec = { BFS_NL, B.ncfg + bfs_ops, 0, 60, bfs_run, NULL, bfs_letter };
+        mc_bfs_spec spec = { 2 + B.nupd, B.ncfg + bfs_ops, 0, 60, bfs_run, NULL, bfs_letter };   /* letters: 2 calls + the updates; in the configuration positions 0..3 select a value */
         mc_bfs_result res;
         mc_bfs("histories", &spec, &res);
         return mc_finish();
